@@ -192,6 +192,8 @@ def base_scenario(rng, index):
     sc['tmpdir'] = rng.choice([None, None, None, 'out', 'in', 'out'])
     # the destination may be a symbolic link to a cart kept elsewhere
     sc['odd_names'] = rng.random() < 0.2
+    # the existing destination has a second hard link (a snapshot backup)
+    sc['dest_hardlink'] = rng.random() < 0.2
     sc['dest_symlink'] = prior == 'cart' and route not in (
         'lib-overwrite', 'luafmt-overwrite') and rng.random() < 0.25
     # file arguments spelled relative to a working directory
@@ -251,14 +253,14 @@ INTERNAL_FAULTS = (
     [{'kind': 'RECURSION', 'limit': n} for n in (60, 90, 120, 160, 220)] +
     [{'kind': 'ROM-DEST'}, {'kind': 'ROM-DEST'}, {'kind': 'TMP-ERR'},
      {'kind': 'TMP-ERR'}, {'kind': 'WARN-STREAM-ERR'},
-     {'kind': 'WARN-STREAM-ERR'}]
+     {'kind': 'WARN-STREAM-ERR'}, {'kind': 'CODE-TOO-BIG'}]
 )
 CLI_INTERNAL_FAULTS = (
     [{'kind': 'ARG-BAD', 'how': h}
      for h in ('keep-names-missing', 'indentwidth-str', 'src-garbage',
                'src-missing', 'src-lexerror', 'src-parseerror')] +
     [{'kind': 'RECURSION', 'limit': n} for n in (60, 90, 120, 160, 220)] +
-    [{'kind': 'TMP-ERR'}]
+    [{'kind': 'TMP-ERR'}, {'kind': 'CODE-TOO-BIG'}]
 )
 BUILD_INTERNAL_FAULTS = (
     [{'kind': 'ARG-BAD', 'how': h}
@@ -266,7 +268,7 @@ BUILD_INTERNAL_FAULTS = (
                'lua-format', 'require-missing', 'out-garbage',
                'keep-names-missing', 'lua-syntax-error', 'out-wrong-ext')] +
     [{'kind': 'RECURSION', 'limit': n} for n in (60, 90, 120, 160, 220)] +
-    [{'kind': 'TMP-ERR'}]
+    [{'kind': 'TMP-ERR'}, {'kind': 'CODE-TOO-BIG'}]
 )
 
 
@@ -421,6 +423,10 @@ def _setup(w, sc):
             return path
         return os.path.relpath(path, w.p(cwd_rel))
     dest = A(w.p(dest_rel))
+    if sc.get('dest_hardlink') and os.path.isfile(w.p(dest_rel)) and \
+            not os.path.islink(w.p(dest_rel)):
+        w.mkdir('backup')
+        os.link(w.p(dest_rel), w.p('backup/hardlink_of_dest'))
     _prelude(w, sc)
 
     if route in LIB_ROUTES:
@@ -475,9 +481,10 @@ def _setup(w, sc):
             pfile.to_file(pfile.from_file(w.p('in/first.p8')), dest)
 
         def op():
-            pfile.to_file(g, dest, lua_writer_cls=cls, lua_writer_args=wargs,
-                          **kwargs)
-            return 0
+            # (to_file documents no return value; a status it may return is
+            # passed on and read like an exit status)
+            return pfile.to_file(g, dest, lua_writer_cls=cls,
+                                 lua_writer_args=wargs, **kwargs)
         return dest_rel, op
 
     # CLI routes through tool.main
@@ -975,6 +982,8 @@ def run_job(job):
         irng = core.derive_rng(job['seed'], 'C11-int', job['index'])
         pick = list(faults) if job['tier'] == 'thorough' else \
             irng.sample(list(faults), min(len(faults), 12))
+        if base['fmt'] == 'png' and {'kind': 'CODE-TOO-BIG'} not in pick:
+            pick.append({'kind': 'CODE-TOO-BIG'})
         for fl in pick:
             sc = dict(base, fault=dict(fl))
             if fl['kind'] == 'RECURSION':
@@ -984,6 +993,12 @@ def run_job(job):
                 sc['cart'] = cart
             if fl['kind'] == 'LABEL-BAD' and base['fmt'] != 'png':
                 continue
+            if fl['kind'] == 'CODE-TOO-BIG':
+                # more code than the .p8.png code area holds even when
+                # compressed (poorly compressible text)
+                if base['fmt'] != 'png' or job['index'] % 4:
+                    continue
+                sc['cart'] = dict(sc['cart'], code={'$bigtext': 24000})
             if fl['kind'] == 'WARN-STREAM-ERR':
                 # enough tokens to make the writer warn on the (broken)
                 # error stream in the middle of producing the cart
